@@ -449,7 +449,12 @@ impl Node {
     async fn send_remote(&self, to: &ExternalPid, message: OwnedTerm) -> Result<()> {
         let node_name = to.node.as_str();
 
-        if let Some(conn) = self.connections.get(node_name) {
+        // Clone the handle out of the map: a DashMap guard must not live across an await
+        let conn = self
+            .connections
+            .get(node_name)
+            .map(|c| Arc::clone(c.value()));
+        if let Some(conn) = conn {
             let from = self
                 .pid_allocator
                 .allocate()
@@ -475,7 +480,12 @@ impl Node {
         } else {
             let node_name = to.node.as_str();
 
-            if let Some(conn) = self.connections.get(node_name) {
+            // Clone the handle out of the map: a DashMap guard must not live across an await
+            let conn = self
+                .connections
+                .get(node_name)
+                .map(|c| Arc::clone(c.value()));
+            if let Some(conn) = conn {
                 let mut conn_guard = conn.lock().await;
                 conn_guard.link(from, to).await?;
                 Ok(())
@@ -498,7 +508,12 @@ impl Node {
         } else {
             let node_name = to.node.as_str();
 
-            if let Some(conn) = self.connections.get(node_name) {
+            // Clone the handle out of the map: a DashMap guard must not live across an await
+            let conn = self
+                .connections
+                .get(node_name)
+                .map(|c| Arc::clone(c.value()));
+            if let Some(conn) = conn {
                 let unlink_id = self.reference_counter.fetch_add(1, Ordering::SeqCst) as u64;
                 let mut conn_guard = conn.lock().await;
                 conn_guard.unlink(from, to, unlink_id).await?;
@@ -531,7 +546,12 @@ impl Node {
         } else {
             let node_name = to.node.as_str();
 
-            if let Some(conn) = self.connections.get(node_name) {
+            // Clone the handle out of the map: a DashMap guard must not live across an await
+            let conn = self
+                .connections
+                .get(node_name)
+                .map(|c| Arc::clone(c.value()));
+            if let Some(conn) = conn {
                 let mut conn_guard = conn.lock().await;
                 conn_guard.monitor(from, to, &reference).await?;
                 Ok(reference)
@@ -555,7 +575,12 @@ impl Node {
         } else {
             let node_name = to.node.as_str();
 
-            if let Some(conn) = self.connections.get(node_name) {
+            // Clone the handle out of the map: a DashMap guard must not live across an await
+            let conn = self
+                .connections
+                .get(node_name)
+                .map(|c| Arc::clone(c.value()));
+            if let Some(conn) = conn {
                 let mut conn_guard = conn.lock().await;
                 conn_guard.demonitor(from, to, reference).await?;
                 Ok(())
@@ -656,7 +681,12 @@ impl Node {
         tracing::debug!("RPC reply_to_pid: {:?}", reply_to_pid);
 
         tracing::trace!("Looking up connection for node: {}", remote_node);
-        if let Some(conn) = self.connections.get(remote_node) {
+        // Clone the handle out of the map: a DashMap guard must not live across an await
+        let conn = self
+            .connections
+            .get(remote_node)
+            .map(|c| Arc::clone(c.value()));
+        if let Some(conn) = conn {
             tracing::trace!("Found connection, sending to rex");
             let mut conn_guard = conn.lock().await;
             conn_guard
